@@ -222,6 +222,7 @@ def idem_suite(res, tier, seed):
     n = 6000 if tier == "quick" else 100000
     cases = [parsesuite.gen_case(rng) if i % 3 else parsesuite.gen_union_case(rng) for i in range(n)]
     cases += [parsesuite.gen_rule_union_case(rng) for _ in range(n // 4)]
+    cases += [parsesuite.gen_xor_case(rng) for _ in range(n // 3)]
     outs = core.pool_map(run_idem, cases)
     kinds = {}
     for o in outs:
@@ -256,6 +257,52 @@ def idem_suite(res, tier, seed):
                   "the implementation and compared with ==; non-trivial = accepted by the first parse; distinct by case",
                   dict(outcomes=kinds, failures_inside_known_findings=known_hits))
 
+
+
+XOR_EXTRA_VALUES = ["2020-01-01T00:00:00", "2020-01-01", "P1D", "PT1H30M", "[7]", "[1, 2]", '{"a": 1}', "12", "1.5", "true", "abc", "", b"12",
+                    1577836800, 1.5, True, None, [3], {"a": 1}, "1e3", "0", " 5 ", "12:30:00", "3 days"]
+
+
+def xor_extra_case(i_seed):
+    """exclusive-or over three or four plain classes, standard-library ones included (outside the Coq model): the result of a
+    successful parse is an exact instance of one argument, so a second parse must return it as it is"""
+    import datetime as dt
+    from utype.parser.rule import LogicalType, Rule
+    from utype.utils.transform import type_transform
+    import utype
+    warnings.simplefilter("ignore")
+    rng = random.Random(i_seed)
+    pool = [int, float, Decimal, str, dt.datetime, dt.date, dt.timedelta, dt.time, list, dict, bool, bytes, set, tuple]
+    arms = rng.sample(pool, rng.randint(3, 4))
+    try:
+        T = LogicalType.combine("^", *arms)       # plain classes only: the exact-class shortcut applies to each
+    except Exception:
+        return None
+    o = utype.Options(**rng.choice([{}, {}, {"no_data_loss": True}, {"collect_errors": True}]))
+    v = rng.choice(XOR_EXTRA_VALUES)
+    try:
+        r1 = type_transform(v, T, o)
+    except Exception:
+        return ("rejected",)
+    try:
+        r2 = type_transform(r1, T, o)
+    except Exception as e:
+        return "^ over %s on %r gives %r; parsing that again raises %s: %s" % ([a.__name__ for a in arms], v, r1, type(e).__name__, str(e)[:120])
+    if not (r2 == r1 and type(r2) is type(r1)):
+        return "^ over %s on %r gives %r; parsing that again gives %r" % ([a.__name__ for a in arms], v, r1, r2)
+    return ("idempotent",)
+
+
+def xor_extra_suite(res, tier, seed):
+    n = 3000 if tier == "quick" else 60000
+    outs = core.pool_map(xor_extra_case, [seed * 7000003 + i for i in range(n)])
+    bad = [o for o in outs if isinstance(o, str)]
+    acc = sum(1 for o in outs if o == ("idempotent",))
+    res.add_suite("xor-standard-classes", n, acc, [dict(arms="int ^ float ^ datetime", value="2020-01-01T00:00:00", expect="the datetime, twice")],
+                  "exclusive-or of 3-4 plain classes (int, float, Decimal, str, datetime, date, timedelta, time, list, dict, bool, bytes, set, "
+                  "tuple) on text / number inputs; every accepted result is parsed again; non-trivial = accepted", dict(failures=len(bad)))
+    for m in bad[:2]:
+        res.violations.append(dict(case=repr(dict(kind="xor-standard-classes")), observed=m, what="re-parsing a parse result does not return an equal value: " + m))
 
 def carried_out(c):
     """the listed finding's second form: the carry left an integer part with more digits than the bound allows (or the bound
@@ -300,6 +347,7 @@ def main(tier, seed):
     genexec.run_suite(res, tier, seed)
     lax_suite(res, tier, seed)
     idem_suite(res, tier, seed)
+    xor_extra_suite(res, tier, seed)
     rng = random.Random(seed * 29 + 5)
     n = 3000 if tier == "quick" else 60000
     cases = [parsesuite.gen_case(rng) if i % 2 else parsesuite.gen_union_case(rng) for i in range(n)]
